@@ -86,7 +86,7 @@ def preceding_comment(repo: Repo, ci: ClassInfo, node: ast.AST) -> Optional[Tupl
     if getattr(node, "_synthetic", False):
         return None             # produced by inlining / unrolling: the comment above the original line describes something else
     lines = ci.file.text.splitlines()
-    i = node.lineno - 2
+    i = getattr(node, "_src_lineno", node.lineno) - 2
     while i >= 0 and lines[i].strip() == "":
         i -= 1
     if i >= 0 and lines[i].strip().startswith("#"):
